@@ -22,6 +22,8 @@ STYLES = ['lf', 'crlf', 'cr', 'mix']
 def base_document(ctx, n):
     """deterministic base document number n: (text with LF terminators, abstract doc of the well-formed part)"""
     rng = ctx.rng('C08-base', n)
+    if n % 3 == 2:
+        return base_document_cif1(rng, n)
     doc = []
     used = {'codes': set()}
     # rich in multi-line values, supplementary-plane and 3-byte characters, CR LF-sensitive constructs
@@ -43,6 +45,33 @@ def base_document(ctx, n):
             entries.append(('item', nm, ('char', ''.join(rng.choice('xyz\U00010000中') for _ in range(rng.randint(1, 60))), rng.random() < 0.5 or True)))
     doc.append({'code': 'base%d' % n, 'entries': entries})
     w = GC.Writer(rng, 2, magic=True, comments=True)
+    text = w.document(doc, trailing='\n')
+    return text, doc
+
+
+def base_document_cif1(rng, n):
+    """a CIF 1.1 base document: quoted strings with embedded delimiters (which need one character of look-ahead at
+    every embedded quote), text fields, bracketed values, loops"""
+    entries = []
+    names = set()
+    words = ["it's", 'say"hi"now', "don't", 'a"b', "x'y'z", 'O"Neil\'s', "rock'n'roll", '5"', "l'", 'q""q', "''tis"]
+    for j in range(40):
+        nm = GC.rand_name(rng, names, 1)
+        r = rng.random()
+        if r < 0.6:
+            t = ' '.join(rng.choice(words) for _ in range(rng.randint(2, 6)))
+            entries.append(('item', nm, ('char', t, True)))
+        elif r < 0.75:
+            t = '\n'.join(' '.join(rng.choice(words + ['plain', ';semi']) for _ in range(rng.randint(1, 5))) for _ in range(rng.randint(2, 4)))
+            entries.append(('item', nm, ('char', GC.clean_text(t, 1), True)))
+        elif r < 0.9:
+            entries.append(('item', nm, GC.rand_doc_value(rng, 1, depth=0, maxlen=20)))
+        else:
+            k = rng.randint(2, 3)
+            ns = [nm] + [GC.rand_name(rng, names, 1) for _ in range(k - 1)]
+            entries.append(('loop', ns, [[('char', rng.choice(words) + ' ' + rng.choice(words), True) for _ in range(k)] for _ in range(rng.randint(2, 4))]))
+    doc = [{'code': 'base%d' % n, 'entries': entries}]
+    w = GC.Writer(rng, 1, magic=True, comments=True)
     text = w.document(doc, trailing='\n')
     return text, doc
 
@@ -128,8 +157,9 @@ def case_list(nbase, step):
         for style in ('cr', 'mix'):
             for k in range(0, 4096, 64 if step == 1 else 256):
                 cases.append(('pad', b, style, k + (b % 7)))
-        for k in range(0, 4096, 32 if step == 1 else 128):
-            cases.append(('utf16', b, 'crlf' if k % 64 else 'lf', k))
+        if b % 3 != 2:       # (the CIF 1.1 base is not served in UTF-16)
+            for k in range(0, 4096, 32 if step == 1 else 128):
+                cases.append(('utf16', b, 'crlf' if k % 64 else 'lf', k))
     for kind in ('text', 'triple', 'comment', 'unquoted', 'quoted-text-crlf'):
         for size in (131190, 131198, 131199, 131200, 131201, 131202, 131210, 262395, 262400, 262410, 300000):
             for style in ('lf', 'crlf'):
@@ -202,7 +232,7 @@ def worker(ctx):
                 refs[(b, 'utf16')] = run_parse(L, ('\ufeff' + full).encode('utf-16-le'))
                 # the well-formed part alone must also be exactly the generator's content (ties the reference to C01)
                 rc, d, errs, probs = run_parse(L, text.encode('utf-8'))
-                if errs or rc != CIF_OK or d != GC.expected_dump(doc, 2):
+                if errs or rc != CIF_OK or d != GC.expected_dump(doc, 1 if b % 3 == 2 else 2):
                     ctx.violation('parse:base:content', 'the unpadded LF base document does not parse to its content (%r)' % (errs[:3],), info)
             text, doc = bases[b]
             first, rest = text.split('\n', 1)
